@@ -961,6 +961,23 @@ class Normalizer:
             return P_atom(A("pow", wrap(self.nf(a[0])), wrap(self.nf(e))))
         if op == "sqrt":
             return p_pow(self.nf(a[0]), Fraction(1, 2))
+        if op == "T" and len(a) == 1 and isinstance(a[0], Term):
+            x_ = a[0]
+            # (A[rows])^T = A^T[:, rows] for a row selection (mask / index vector)
+            if x_.op == "getitem" and isinstance(x_.args[1], Term) and x_.args[1].op in ("lt", "le", "gt", "ge", "invert", "bitand", "bitor", "nonzero1", "argsort", "unique", "setdiff1d", "sort") and isinstance(x_.args[0], Term):
+                return self.nf(Term("getitem", Term("T", x_.args[0]), Term("tuple", Term("slice", Term("const", None), Term("const", None), Term("const", None)), x_.args[1])))
+        if op in ("sum", "mean", "amin", "amax", "any", "all", "prod", "count", "average") and len(a) >= 2 and isinstance(a[0], Term) and a[0].op == "T" and len(a[0].args) == 1 and not any(isinstance(z_, tuple) and z_ and z_[0] == "weights" for z_ in a[1:]):
+            # a reduction along an axis of A^T is the reduction along the other axis of A (matrices)
+            axs_ = [z_ for z_ in a[1:] if isinstance(z_, tuple) and len(z_) == 2 and z_[0] == "axis" and isinstance(z_[1], Term) and z_[1].op == "const" and z_[1].args[0] in (0, 1)]
+            if len(axs_) == 1:
+                rest_ = [(("axis", Term("const", Fraction(1 - int(z_[1].args[0])))) if z_ is axs_[0] else z_) for z_ in a[1:]]
+                return self.nf(Term(op, a[0].args[0], *rest_))
+        if op == "stack" and len(a) >= 3 and isinstance(a[0], Term) and a[0].op == "const" and a[0].args[0] == 0 and all(isinstance(b_, Term) for b_ in a[1:]) and any(b_.op == "T" and len(b_.args) == 1 for b_ in a[1:]):
+            # blocks of transposed matrices stacked by rows: the transpose of the blocks stacked by columns
+            return self.nf(Term("T", Term("stack", Term("const", Fraction(1)), *[(b_.args[0] if b_.op == "T" and len(b_.args) == 1 else Term("T", b_)) for b_ in a[1:]])))
+        if op == "matmul" and len(a) == 2 and isinstance(a[1], Term) and a[1].op == "getitem" and isinstance(a[1].args[1], Term) and a[1].args[1].op in ("sym", "lv") and isinstance(a[0], Term) and not (a[0].op == "getitem" and isinstance(a[0].args[1], Term) and a[0].args[1].op in ("sym", "lv")):
+            # M @ v = v @ M^T for a row v = A[i] taken at one position
+            return self.nf(Term("matmul", a[1], Term("T", a[0])))
         if op == "T":
             return p_T(self.nf(a[0]), self.symmetric)
         if op in ("reshape1", "astype", "bcast"):
@@ -1100,6 +1117,19 @@ class Normalizer:
                 inner_i = base.args[1]
                 if isinstance(inner_i, Term) and inner_i.op in ("unique", "nonzero1", "argsort", "list", "setdiff1d", "arange", "flatten", "ravel", "sort"):  # index vectors only: a scalar index would drop the axis
                     return self.nf(Term("getitem", base.args[0], Term("tuple", inner_i, idx.args[1])))
+            # row l of A^T is column l of A
+            if isinstance(base, Term) and base.op == "T" and len(base.args) == 1 and isinstance(idx, Term) and (idx.op in ("lv", "sym") or (idx.op == "const" and isinstance(idx.args[0], Fraction))) and idx.op != "tuple":
+                return self.nf(Term("getitem", base.args[0], Term("tuple", Term("slice", Term("const", None), Term("const", None), Term("const", None)), idx)))
+            # arange(n)[:k] = arange(k) ; arange(n)[mask] = flatnonzero(mask) ; a[arange(k)] = a[:k]
+            if isinstance(base, Term) and base.op == "arange" and len(base.args) == 1 and isinstance(idx, Term):
+                if idx.op == "slice" and len(idx.args) == 3 and _is_none_t(idx.args[0]) and _is_none_t(idx.args[2]) and not _is_none_t(idx.args[1]):
+                    return self.nf(Term("arange", idx.args[1]))
+                if idx.op in ("lt", "le", "gt", "ge", "invert", "bitand", "bitor", "eq", "ne"):
+                    return self.nf(Term("nonzero1", idx))
+            if isinstance(idx, Term) and idx.op == "arange" and len(idx.args) == 1 and isinstance(idx.args[0], Term) and idx.args[0].op not in ("dim",):
+                return self.nf(Term("getitem", base, Term("slice", Term("const", None), idx.args[0], Term("const", None))))
+            if isinstance(idx, Term) and idx.op == "tuple" and len(idx.args) == 2 and _term_full_slice(idx.args[0]) and isinstance(idx.args[1], Term) and idx.args[1].op == "arange" and len(idx.args[1].args) == 1 and isinstance(idx.args[1].args[0], Term) and idx.args[1].args[0].op not in ("dim",):
+                return self.nf(Term("getitem", base, Term("tuple", idx.args[0], Term("slice", Term("const", None), idx.args[1].args[0], Term("const", None)))))
             # selecting entries of an elementwise power: (x**k)[sel] = (x[sel])**k
             if isinstance(base, Term) and base.op == "pow" and len(base.args) == 2 and isinstance(base.args[1], Term) and base.args[1].op == "const" and isinstance(base.args[0], Term) and isinstance(idx, Term) and idx.op in ("lt", "le", "gt", "ge", "nonzero1", "invert", "bitand", "bitor"):
                 return self.nf(Term("pow", Term("getitem", base.args[0], idx), base.args[1]))
@@ -1498,6 +1528,14 @@ class Normalizer:
     def linear_reduce(self, op, a, cyclic=False, inner=None):
         if inner is None:
             inner = self.nf(a[0])
+        if op in ("sum", "mean", "average") and len(a) >= 2 and not any(isinstance(z_, tuple) and z_ and z_[0] == "weights" for z_ in a[1:]):
+            # the same reduction written on the transposed table (along the other axis): the spelling with fewer transposes
+            axs_ = [z_ for z_ in a[1:] if isinstance(z_, tuple) and len(z_) == 2 and z_[0] == "axis" and isinstance(z_[1], Term) and z_[1].op == "const" and z_[1].args[0] in (0, 1)]
+            if len(axs_) == 1:
+                alt_ = p_T(inner, self.symmetric)
+                if show_any(wrap(alt_)).count("ᵀ") < show_any(wrap(inner)).count("ᵀ"):
+                    inner = alt_
+                    a = (a[0],) + tuple((("axis", Term("const", Fraction(1 - int(z_[1].args[0])))) if z_ is axs_[0] else z_) for z_ in a[1:])
         rest = tuple(self.freeze(x) for x in a[1:])
         if op == "average":
             w = [r for r in rest if isinstance(r, tuple) and r and r[0] == "weights"]
